@@ -48,6 +48,8 @@ func c11Docs() []bson.D {
 		bson.A{int32(1), int32(2), int32(3)}, bson.A{int32(3), int32(1), int32(2), int32(1)}, bson.A{},
 		bson.A{bD("x", int32(1), "y", int32(1)), bD("x", int32(2), "y", int32(2))}, bson.A{bD("x", int32(2)), bD("x", int32(1))},
 		bson.A{int32(1), "s", nil},
+		// arrays directly inside arrays, and documents inside those
+		bson.A{bson.A{int32(1), int32(2)}, bson.A{int32(3)}}, bson.A{bson.A{bD("x", int32(1))}, bD("x", bson.A{int32(4), int32(5)})},
 	}
 	var docs []bson.D
 	for _, a := range vals {
@@ -62,7 +64,7 @@ func c11Docs() []bson.D {
 }
 
 func c11Cases() []c11Case {
-	paths := []string{"a", "a.b", "a.b.c", "a.0", "a.1", "a.5", "a.0.x", "a.$[]", "a.$[].x", "a.$[i]", "a.$[i].x", "n", "a.+1"} // "+1" is a field name, not an index
+	paths := []string{"a", "a.b", "a.b.c", "a.0", "a.1", "a.5", "a.0.x", "a.$[]", "a.$[].x", "a.$[i]", "a.$[i].x", "n", "a.+1", "a.0.1", "a.$[].$[]"} // "+1" is a field name, not an index
 	filterSets := [][]bson.D{nil, {bD("i", bD("$gte", int32(2)))}, {bD("i.x", int32(1))}, {bD("i", int32(1)), bD("j", int32(2))}}
 	var out []c11Case
 	add := func(op, path string, arg interface{}) {
